@@ -42,6 +42,46 @@ pub fn case(ctx: &Ctx, bytes: &[u8]) -> Outcome {
     check(ctx, &s.forms, &s.features)
 }
 
+/// Deep captures: a continuation captured under `depth` pending non-tail calls (the
+/// stack is hundreds of slots deep), stored, and re-entered from the same form, from a
+/// shallow later form, from a deeper later form, and after a failed evaluation.
+fn deep_program(c: &mut mwv_core::choice::Choices) -> Vec<mwv_core::sx::Sx> {
+    let depth = *c.pick(&[3usize, 10, 41, 42, 43, 60, 100, 150, 300, 600][..]);
+    let depth2 = *c.pick(&[0usize, 5, 50, 200, 400][..]);
+    let reenter = 1 + c.below(3);
+    let fail_between = c.chance(90);
+    let shape = c.below(3);
+    let mut src = String::new();
+    src.push_str("(define kd #f) (define cd 0) (define log '())");
+    match shape {
+        0 => src.push_str("(define (deep n) (if (= n 0) (call/cc (lambda (k) (set! kd k) 0)) (+ 1 (deep (- n 1)))))"),
+        1 => src.push_str("(define (deep n) (if (= n 0) (call/cc (lambda (k) (set! kd k) 0)) (car (list (+ 1 (deep (- n 1))) n))))"),
+        _ => src.push_str("(define (deep n . r) (cond ((= n 0) (call/cc (lambda (k) (set! kd k) 0))) (else (let ((v (apply deep (- n 1) n r))) (+ v 1)))))"),
+    }
+    src.push_str("(define (wrap n thunk) (if (= n 0) (thunk) (+ 1000 (wrap (- n 1) thunk))))");
+    src.push_str(&format!("(deep {})", depth));
+    if fail_between {
+        src.push_str("(car '())");
+    }
+    // re-entry from a later form at depth2, counter-guarded
+    src.push_str(&format!(
+        "(wrap {} (lambda () (if (< cd {}) (begin (set! cd (+ cd 1)) (set! log (cons cd log)) (kd (* cd 100))) 'done)))",
+        depth2, reenter
+    ));
+    src.push_str("(list cd log)");
+    src.push_str(&format!("(if (< cd {}) (begin (set! cd (+ cd 1)) (kd -1)) cd)", reenter + 1));
+    src.push_str("(list cd log)");
+    mwv_core::sx::read_all(&src).expect("deep capture template parses")
+}
+
+fn deep_case(ctx: &Ctx, bytes: &[u8]) -> Outcome {
+    let mut c = mwv_core::choice::Choices::new(bytes);
+    let forms = deep_program(&mut c);
+    let mut feats = std::collections::BTreeSet::new();
+    feats.insert("deep-capture");
+    check(ctx, &forms, &feats)
+}
+
 impl Prop for C05 {
     fn id(&self) -> &'static str {
         "C05"
@@ -63,6 +103,8 @@ impl Prop for C05 {
         ctx.journal_bytes.set(true);
         let cases = ctx.tier.pick(1_200u32, 20_000u32);
         ctx.run_bytes("session", cases, 1536, case);
+        let deep = ctx.tier.pick(60u32, 1_500u32);
+        ctx.run_bytes("deep", deep, 16, deep_case);
     }
     fn replay(&self, ctx: &Ctx, kind: &str, payload: &Value) -> Outcome {
         match kind {
@@ -70,6 +112,7 @@ impl Prop for C05 {
                 Ok(forms) => check(ctx, &forms, &Default::default()),
                 Err(_) => Outcome::Discard,
             },
+            "deep" => deep_case(ctx, &unhex(payload["bytes"].as_str().unwrap_or(""))),
             _ => case(ctx, &unhex(payload["bytes"].as_str().unwrap_or(""))),
         }
     }
